@@ -644,9 +644,17 @@ def set_cnt(R, lst, cnt):
 
 @method("list", "append")
 def l_append(R, recv, args, kw, node):
+    if args[0].t.kind == "lref":
+        raise Unsupported("appending an object that already lives in a list slot (two owners)")
     x = _elem(R, recv, args[0])
     c = R.content(recv)
     R.set_content(recv, V(c.t, z3.Concat(c.z, z3.Unit(x.z))))
+    if getattr(x.t, "objlike", False) and not R.pure:
+        # the object now lives in the slot: the local that held it becomes a reference to the slot
+        an = node.args[0] if node is not None and getattr(node, "args", None) else None
+        if not isinstance(an, ast.Name) or R.cur_frame is None:
+            raise Unsupported("append of an object expression (only a local name can be turned into the slot reference)")
+        R.set_name(an.id, V(T.ListItemRef(x.t), (recv, zsimp(z3.Length(c.z)))), R.cur_frame)
     if R.cell(recv).ty.counted:
         cnt = cnt_of(R, recv)
         set_cnt(R, recv, z3.Store(cnt, x.z, z3.Select(cnt, x.z) + 1))
